@@ -651,6 +651,8 @@ class Executor:
         if t.startswith("[") and t.endswith("]"):
             parts = split_top(t[1:-1])
             return Agg(dest_ty or "array", None, {str(i): self.operand(st, p) for i, p in enumerate(parts)})
+        if re.fullmatch(r"\{closure@[^}]*\}", t):
+            return FnItem(t)  # a closure without captures
         # struct literal  Path { a: x, b: y }
         m = re.fullmatch(r"([A-Za-z_][^{]*?|\{closure@[^}]*\}) \{ (.*) \}", t)
         if m:
